@@ -63,7 +63,7 @@ CHECKS = {
     ),
     "C01": dict(
         technique="runtime monitoring: differential oracle (OpenSSL EVP_DigestVerify over the TBS bytes cut out by an independent DER reader), recording remote signer, fault injection at every sign call",
-        text="Certificates (self-signed, issuer-signed, three public-key sources), CSRs and CRLs from enumerated and random parameter sets are produced with every pool key (RSA 2048-4096 x SHA-256/384/512, P-256/384/521, Ed25519; generated by the back end, by OpenSSL, loaded through every entry point; local and remote) under ring and aws-lc-rs. For each artefact the to-be-signed bytes are cut out with derx and the signature is verified by OpenSSL under the signer's SubjectPublicKeyInfo; inner/outer AlgorithmIdentifier bytes are compared with a table transcribed from the RFCs; recording remote signers must have been asked exactly once for exactly those bytes; a remote signer failing at its n-th call must produce Err and no artefact. Certificates are issued through all three routes (key pair, SubjectPublicKeyInfo, parsed CSR -> CertificateSigningRequestParams::signed_by); aws-lc-rs: RSA keys generated by rcgen under each digest and keys arriving in SEC1/PKCS#1 through five routes.",
+        text="Certificates (self-signed, issuer-signed, three public-key sources), CSRs and CRLs from enumerated and random parameter sets are produced with every pool key (RSA 2048-4096 x SHA-256/384/512, P-256/384/521, Ed25519; generated by the back end, by OpenSSL, loaded through every entry point; local and remote) under ring and aws-lc-rs. For each artefact the to-be-signed bytes are cut out with derx and the signature is verified by OpenSSL under the signer's SubjectPublicKeyInfo; inner/outer AlgorithmIdentifier bytes are compared with a table transcribed from the RFCs; recording remote signers must have been asked exactly once for exactly those bytes; a remote signer failing at its n-th call must produce Err and no artefact. Certificates are issued through all three routes (key pair, SubjectPublicKeyInfo, parsed CSR -> CertificateSigningRequestParams::signed_by); aws-lc-rs: RSA keys generated by rcgen under each digest and keys arriving in SEC1/PKCS#1 through five routes. 2400 CRLs (thorough: 24000) signed by remote RSA keys under each digest, so that PKCS#1 signatures beginning with a zero octet occur (their number is in the evidence) and must be embedded unshortened.",
         design_ref="DESIGN.md 5/C01",
         note="Trusted: OpenSSL signature verification and key decoding; derx split of the outer SEQUENCE. A misbehaving remote signer (wrong bytes) is the caller's fault and not asserted.",
     ),
